@@ -9,6 +9,7 @@ package main
 import (
 	"bytes"
 	"crypto/sha256"
+	"encoding/binary"
 	"encoding/hex"
 	"errors"
 	"fmt"
@@ -190,13 +191,55 @@ func decGuard(f func() (*sidecar.Ticket, error)) decOutcome {
 	}
 }
 
+// decRisky reports whether b contains, at any offset, a BigSize integer in
+// [2^27, 2^63): if an uncapped decoder took it for a record length it would
+// request that much memory from the OS, which can end in a fatal (not
+// recoverable) out-of-memory error. Values >= 2^63 are a recoverable makeslice
+// panic and are not filtered.
+func decRisky(b []byte) bool {
+	for i := range b {
+		switch {
+		case b[i] == 0xfe && i+4 < len(b):
+			if binary.BigEndian.Uint32(b[i+1:]) >= 1<<27 {
+				return true
+			}
+		case b[i] == 0xff && i+8 < len(b):
+			if v := binary.BigEndian.Uint64(b[i+1:]); v >= 1<<27 && v < 1<<63 {
+				return true
+			}
+		}
+	}
+	return false
+}
+
+var decTreeCapped *bool
+
+// decSkip: on a tree whose ticket decoders are not size-capped, inputs that
+// could make the process die of memory exhaustion are not run (Class
+// "skipped"); the defect itself is still shown by the >= 2^63 lengths.
+func decSkip(b []byte) bool {
+	if decTreeCapped == nil {
+		decTreeCapped = new(bool) // set before the probe, which is harmless
+		*decTreeCapped = true
+		c := decCapped()
+		*decTreeCapped = c
+	}
+	return !*decTreeCapped && decRisky(b)
+}
+
 func decDeserialize(b []byte) decOutcome {
+	if decSkip(b) {
+		return decOutcome{Class: "skipped"}
+	}
 	return decGuard(func() (*sidecar.Ticket, error) {
 		return sidecar.DeserializeTicket(bytes.NewReader(b))
 	})
 }
 
 func decDecodeString(s string) decOutcome {
+	if len(s) > 7 && decSkip(base58.Decode(s[7:])) {
+		return decOutcome{Class: "skipped"}
+	}
 	return decGuard(func() (*sidecar.Ticket, error) {
 		return sidecar.DecodeString(s)
 	})
@@ -420,6 +463,8 @@ func decClassify(orig, r decOutcome) byte {
 		return 'P'
 	case "timeout":
 		return 'T'
+	case "skipped":
+		return 'S'
 	case "err":
 		return decErrChars[r.Err]
 	}
